@@ -209,8 +209,7 @@ def _rule_product(ctx, P, g):
     S = T.Slicer(g, P)
     aggs = list(Q.aggregates(g, key_adt, None))
     if not aggs:
-        ctx.cannot("R1", inst, "key construction (aggregate of %s) not found in %s" % (key_adt, g.path), ctx.loc(g))
-        return 1
+        return _rule_product_iter(ctx, P, g, key_adt, fields, names, inst)
     loops = C.loops(g)
     okall = True
     why = ""
@@ -260,6 +259,77 @@ def _rule_product(ctx, P, g):
         if not okall:
             break
     ctx.check(okall, "R1", inst, "keys = nested plain iteration over the expansions of %s (cartesian product)" % ", ".join(k for k, _ in fields),
+              "stored keys are not the cartesian product of the per-field wildcard expansions: " + why +
+              "; a signature with several wildcards is then invisible to some observations the distance function accepts", ctx.loc(g))
+    return 1
+
+
+def _payload_depth(t, depth=0):
+    """(payload node, number of closure captures between the value and the closure parameter it comes from)"""
+    out = []
+    if t[0] == "payload":
+        return [(t, depth)]
+    if t[0] == "upvar":
+        return _payload_depth(t[2], depth + 1)
+    for c in t[1:]:
+        if isinstance(c, tuple):
+            if c and isinstance(c[0], str):
+                out += _payload_depth(c, depth)
+            else:
+                for x in c:
+                    if isinstance(x, tuple) and x and isinstance(x[0], str):
+                        out += _payload_depth(x, depth)
+    return out
+
+
+def _rule_product_iter(ctx, P, g, key_adt, fields, names, inst):
+    """The cartesian product written with iterator adapters:  xs.iter().flat_map(|x| ys.iter().map(|y| Key { x, y })).collect().
+    The key aggregate sits in a closure; each wildcard-bearing field must be the item of its own plain iteration, the iterations
+    are nested closures (the inner iterator is created inside the outer closure, i.e. restarted for every outer item), every
+    level but the innermost is a flat_map, and the function returns the collected outer flat_map."""
+    sites = []
+    for cb in Q.callgraph_closure(P, g, depth=4):
+        if cb.kind != "Closure" or not cb.path.startswith(g.path + "::"):
+            continue
+        SC = T.Slicer(cb, P)
+        for (i, j, st) in Q.aggregates(cb, key_adt, None):
+            sites.append((cb, i, T.expand_upvars(P, cb, SC.rvalue(st["r"], i, j), depth=6)))
+    if not sites:
+        ctx.cannot("R1", inst, "key construction (aggregate of %s) not found in %s or its closures" % (key_adt, g.path), ctx.loc(g))
+        return 1
+    okall, why = True, ""
+    for (cb, i, t) in sites:
+        per = {}
+        for (kf, ety) in fields:
+            op = t[4][names.index(kf)]
+            pls = _payload_depth(op)
+            if len(pls) != 1:
+                okall, why = False, "field %s is not the item of exactly one iteration (%d iterator items in its origin)" % (kf, len(pls))
+                break
+            pl, d = pls[0]
+            bad = sorted({T.short(c[1]) for r in pl[2] for c in T.calls_in(r) if c[1].endswith(ITER_ADAPTERS)})
+            if bad:
+                okall, why = False, "field %s iterates through %s: not every combination of expanded values is stored" % (kf, ",".join(bad))
+                break
+            per[kf] = (pl[1], d)
+        if not okall:
+            break
+        ds = sorted(per.values(), key=lambda x: x[1])
+        if len({d for _, d in ds}) != len(ds):
+            okall, why = False, "fields %s take their values from the same iteration (pairwise, not cartesian)" % ",".join(per)
+            break
+        if not ds[0][0].endswith(("::map", "::flat_map")) or not all(h.endswith("::flat_map") for h, _ in ds[1:]):
+            okall, why = False, "the nested iterations are %s: outer levels must be flat_map, the innermost map" % [T.short(h) for h, _ in ds]
+            break
+    if okall:
+        rets = [T.strip(t) for (_, _, t, _) in TB.return_sites(g, P)]
+        outer = cb.path.rsplit("::{closure#", len(fields) - 1)[0] if len(fields) > 1 else cb.path
+        good = [r for r in rets if r[0] == "call" and r[1].endswith("::collect") and
+                any(c[1].endswith("::flat_map") and any(T.strip(a)[0] == "agg" and T.strip(a)[2] == outer for a in c[2]) for c in T.calls_in(r)) and
+                not any(c[1].endswith(ITER_ADAPTERS) for c in T.calls_in(r))]
+        if len(good) != len(rets) or not rets:
+            okall, why = False, "the function does not return the collected product iterator"
+    ctx.check(okall, "R1", inst, "keys = flat_map/map nest over the expansions of %s (cartesian product)" % ", ".join(k for k, _ in fields),
               "stored keys are not the cartesian product of the per-field wildcard expansions: " + why +
               "; a signature with several wildcards is then invisible to some observations the distance function accepts", ctx.loc(g))
     return 1
@@ -383,6 +453,8 @@ def _recipe(P, body, term, depth=0):
     t = term
     if t[0] in ("ref", "deref"):
         return _recipe(P, body, t[2] if t[0] == "ref" else t[1], depth)
+    if t[0] == "upvar":
+        return _recipe(P, body, t[2], depth)
     if t[0] == "call":
         name = T.short(t[1])
         if T.is_identity_call(t[1]) and t[2]:
@@ -435,6 +507,8 @@ def rule_R3(ctx):
                     for (i, j, s) in Q.aggregates(b, key_adt):
                         fields = s["r"]["fields"]
                         t = S.operand(s["r"]["ops"][fields.index(kf)], i, j)
+                        if b.kind == "Closure":
+                            t = T.expand_upvars(P, b, t, depth=6)
                         recs.setdefault(side, []).append((_recipe(P, b, t), b, i))
             if "db" not in recs or "obs" not in recs:
                 ctx.cannot("R3", inst, "key construction not found on both sides")
@@ -581,6 +655,8 @@ def rule_R4_R5_R6(ctx):
             rets.append((i, j, s["r"]["variant"]))
     somes = [r for r in rets if r[2] == "Some"]
     nones = [r for r in rets if r[2] == "None"]
+    # `x?` on an Option returns None through FromResidual::from_residual
+    nones += [(blk, -1, "None") for blk, t in Q.calls(fbm, "::from_residual") if t["dest"]["l"] == 0 and not t["dest"]["pr"] and "Option<" in fbm.local_ty(0)]
     ok6 = len(somes) == 1 and len(nones) >= 1
     if ok6:
         i, j, _ = somes[0]
